@@ -211,15 +211,16 @@ def check_role_decorators(rep: Report) -> None:
             if isinstance(c, ast.Call) and norm(c.func) == 'func':
                 seen[0] += 1
                 key = f'func() after check [{short(st, 40)}]'
-                goal = pc_parse(ast.parse('token is None and optional', mode='eval').body)
-                bad = [x for x in states if 'checked' not in x[2] and pc_entails(x[0], goal) is not True]
+                bad = [x for x in states if 'checked' not in x[2]
+                       and pc_entails(x[0], pcd15.goal(x, 'token is None and optional')) is not True]
                 if not bad:
                     rep.ok(rid, construct, key)
                 else:
                     rep.fail(rid, construct, key,
                              'the wrapped view runs on a path without CsrfProtection.check that is not the '
                              f'`token is None and optional` case (path condition: {pc_show(bad[0][0])[:160]})', c)
-    Flow(Disjunctive(PathCond(gen=gen), cap=256), on_stmt=on_stmt2).run(inner, [PathCond.initial()])
+    pcd15 = PathCond(gen=gen)
+    Flow(Disjunctive(pcd15, cap=256), on_stmt=on_stmt2).run(inner, [PathCond.initial()])
     if not seen[0]:
         raise AnalysisError('csrf_token_required: the wrapped view is never called')
 
